@@ -197,6 +197,11 @@ def run_trace(tid, n, cls, mode, hidden_f, objs, rng, length, with_gaps, ops_wei
                 if script is None and rng.random() < 0.5:
                     h.unreveal_value(Coalition(c))
             apply_all(poke)
+            # ... and a caller of the public id helpers does what it likes with the arrays it was handed (seed C02-f)
+            from incomplete_cooperative import coalition_ids as CI
+            for arr in (CI.get_all_coalitions(n), CI.sub_coalitions(2 ** n - 1, n), CI.super_coalitions(0, n)):
+                if isinstance(arr, np.ndarray) and arr.size > 2:
+                    arr[1:-1] = arr[1:-1][::-1].copy()
             ev["c"] = c
         elif op == "unreveal":
             c = rng.choice(revealed) if script is None else script[step]["c"]
@@ -213,7 +218,7 @@ def run_trace(tid, n, cls, mode, hidden_f, objs, rng, length, with_gaps, ops_wei
             since_compute = 0
         elif op == "set":
             c = rng.choice(expl) if script is None else script[step]["c"]
-            if cls == "ANY" and script is None and rng.random() < 0.5:
+            if cls == "ANY" and script is None and mode == "exact" and scale <= 1024 and rng.random() < 0.5:
                 # games of any class (C08): the value of a coalition -- known already or not -- is OVERWRITTEN with another one, as when a
                 # second game is loaded into the same object (seed C04-f: a cache of known values dropped only when knowledge GROWS)
                 hidden_f[c] = float(rng.randint(-6, 9))
